@@ -446,8 +446,15 @@ package bkl
 //@   call filterList#1
 //@     invariant ((_ is VList) ret)
 //@     invariant (=> (escL (ls l)) (and (= (app (ls ret) rest) (ls l)) (= merge (VList LNil)) (escL rest)))   [C06]
+//@     invariant ((_ is VList) merge)
+//@     invariant (= (app (ls ret) (plmvR rest "$merge")) (plmvR (ls l) "$merge"))                         [C10]
+//@     invariant (= (app (ls merge) (collectK rest "$merge")) (collectK (ls l) "$merge"))                 [C10]
 //@   loop 1
 //@     invariant (=> (= (ls merge) LNil) (= obj obj@loop))   [C06]
+//@   at call process1ListMerge#1
+//@     assert (and (= m@arg elem) (= obj@arg obj) (= (ls merge) (collectK (ls obj@pre) "$merge")))          [C10]
+//@   at call process1ListReplace#1
+//@     assert (and (= m@arg m) (not (= m VNil)) (= obj@arg obj))                                             [C10]
 //@   call filterList#2
 //@     invariant ((_ is VList) ret)
 //@     invariant (=> (quiet l (- depth 1)) (and (= (app (ls ret) (dropL rest)) (dropL (ls l))) (escL rest)))   [C06]
